@@ -10,6 +10,7 @@ SHORT_TRIGGER = 'none'
 REWRITE_TRIGGER = 'pair'
 WITHHOLD_TRIGGER = 'slow'
 REPLACED_CODE_BASE = 7000
+PUBLISHED_AS: Dict[str, str] = {}    # filled by the scenario module (alias -> name the function records)
 
 
 def _tok(params: Any) -> Optional[str]:
@@ -38,7 +39,8 @@ def expected_element(element: Dict[str, Any], mw_kinds: List[str], handlers: Dic
     def inner(req: Dict[str, Any]) -> Optional[Dict[str, Any]]:
         reply, execution = R.element_outcome(dict(req, id=rid if rid is not None else 0), methods, unset, error_types)
         if execution is not None:
-            events.append(('method', execution[0]))
+            # a function published under several names records its executions under its own name
+            events.append(('method', PUBLISHED_AS.get(execution[0], execution[0])))
             if deadlines and hanging(_tok(req.get('params', [])), execution[0]):
                 raise _Hung()
         assert reply is not None
